@@ -14,7 +14,7 @@
 
 From Coq Require Import String List NArith Bool Arith.
 From Nexus Require Import Conc.SkelTypes Conc.Machine Conc.MachineFacts Conc.Shutdown
-  Conc.ShutdownWitness Conc.ShutdownProofs Conc.Skeleton Conc.SkelObligationsC06 gen.GenSkeleton.
+  Conc.ShutdownWitness Conc.ShutdownProofs Conc.ShutdownLock Conc.ShutdownFlag Conc.Skeleton Conc.SkelObligationsC06 gen.GenSkeleton.
 Import ListNotations.
 
 (** ** Tie to the source, re-established on every run *)
@@ -33,6 +33,50 @@ Theorem close_lock_sections :
   lock_sections_ranked gen_funcs = true /\ attribution_closed gen_funcs gen_entries = true.
 Proof. exact close_lock_sections_hold. Qed.
 Print Assumptions close_lock_sections.
+
+
+(** ** The repaired protocol, for ANY number K of sessions, any client scripts,
+       any queue capacities and either way of closing *)
+
+(** Channels that the repaired code never closes — the router's action channel
+    (fix 05), the meta peer and the meta INVOCATION queue (fix 04), reply
+    channels — are open in every reachable state: a send on them can never be
+    a send on a closed channel (part of close_no_panic). *)
+Theorem close_no_panic_never_closed :
+  forall (scr : nat -> list msg * bool) (K : nat) (p : params) (c : ch) (s : sstate),
+    never_closed c = true -> sreach all_fixed scr K (init p) s ->
+    c_closed (chans s c) = false.
+Proof. exact ShutdownProofs.never_closed_stays_open. Qed.
+Print Assumptions close_no_panic_never_closed.
+
+(** [closeLock] is held by exactly the goroutines that are inside
+    handleSession's or realm.close's critical section, never by two. *)
+Theorem close_lock_exclusive :
+  forall (scr : nat -> list msg * bool) (K : nat) (p : params) (s : sstate),
+    sreach all_fixed scr K (init p) s -> outcome s = None ->
+    count holds (procs s) = (if locks s LClose then 1 else 0).
+Proof. intros scr K p s Hr Ho. exact (proj2 (lock_invariant scr K p s Hr Ho)). Qed.
+Print Assumptions close_lock_exclusive.
+
+(** late_attach_refused: once the realm is marked closed, no attach goroutine
+    is past the check, none can get past it any more (the flag never goes
+    back), and the check sends every later attach down the refusal path. *)
+Theorem late_attach_refused :
+  forall (scr : nat -> list msg * bool) (K : nat) (p : params) (s : sstate),
+    sreach all_fixed scr K (init p) s -> outcome s = None ->
+    vars s VRealmClosed = 1%N ->
+    (forall l, In l (procs s) -> joining l = false) /\
+    (forall j i, nth_error (procs s) i = Some (AtCheck j) ->
+       sstep all_fixed scr K s (EInt i 0) = Some (set_proc s i (AtRefUnlock j))).
+Proof. exact ShutdownFlag.late_attach_refused. Qed.
+Print Assumptions late_attach_refused.
+
+Theorem closed_flag_monotone :
+  forall (scr : nat -> list msg * bool) (K : nat) (s : sstate) e s',
+    sstep all_fixed scr K s e = Some s' -> outcome s' = None ->
+    vars s VRealmClosed = 1%N -> vars s' VRealmClosed = 1%N.
+Proof. exact ShutdownFlag.flag_monotone. Qed.
+Print Assumptions closed_flag_monotone.
 
 (** ** The current code (all repair flags off) violates the statements
 
